@@ -94,7 +94,17 @@ fn authorised_rec() -> impl Strategy<Value = Rec> {
 }
 
 fn exch() -> impl Strategy<Value = Exch> {
-    (gen::greq_with(gen::gurl_no_traversal()), big_or_small(102_400), prop::bool::weighted(0.4), prop::collection::vec(1usize..3000, 0..4), gresp()).prop_map(|(mut req, big_body, use_big, req_pieces, resp)| {
+    (gen::greq_with(gen::gurl_no_traversal()), big_or_small(102_400), prop::bool::weighted(0.4), prop::collection::vec(1usize..3000, 0..4), gresp(), prop::option::weighted(0.12, (any::<bool>(), gen::case_mask()))).prop_map(|(mut req, big_body, use_big, req_pieces, resp, exempt)| {
+        // the two signature-exempt uploads take their own route through the proxy: relayed like everything else
+        if let Some((telemetry, mask)) = exempt {
+            if telemetry {
+                req.method = "POST".into();
+                req.url = gen::GUrl { path: gen::flip_case("/machine/", mask), query: Some(gen::flip_case("comp=telemetrydata", mask.rotate_left(7))) };
+            } else {
+                req.method = "PUT".into();
+                req.url = gen::GUrl { path: gen::flip_case("/vmAgentLog", mask), query: None };
+            }
+        }
         if use_big && !matches!(req.method.as_str(), "GET" | "HEAD" | "OPTIONS" | "DELETE") {
             req.body = big_body;
             if req.body.len() > 102_400 {
@@ -163,7 +173,7 @@ pub fn storm_strategy() -> impl Strategy<Value = Case> {
         .prop_map(|(conns, key)| Case { conns: conns.into_iter().map(|(rec, exchanges, rounds)| ConnPlan { rec, exchanges, burst: false, rounds }).collect(), key })
 }
 
-pub const RULE: &str = "generator: 1-3 client connections run concurrently, each attributed to an authorised caller/destination and carrying 1-4 requests on one keep-alive connection (sequentially, or all written before any response is read, or - with small bodies - the list repeated 8-39 times back to back: a keep-alive storm): method in {GET,POST,PUT,DELETE,PATCH,HEAD,OPTIONS}, target, header multiset (a third of the requests repeat a header name two or three times), body 0 bytes .. exactly the 100 KiB limit as Content-Length or chunked with generated chunk sizes and write boundaries; host responses: status from 200..599 (no 1xx), header multiset incl. repeated Set-Cookie and a host-side x-ms-azure-host-claims, body 0..400 KB binary as Content-Length / chunked with generated chunk sizes / close-delimited, written in generated pieces with optional pauses, the last bytes (e.g. the chunked terminator) optionally in a separate late write. Every request and response carries a unique tag. oracle: host side - method, target, de-framed body byte-equal, client header lines other than the three proxy-owned names equal as a multiset with order kept among equal names; client side - status, header lines plus exactly one x-ms-azure-host-authorization marker, body byte-equal, response tag = request tag; framing headers, Connection and Date exempt on both legs. non-trivial: an exchange with non-empty bodies in both directions and a multi-frame response, or >= 3 requests on one connection with >= 2 connections active; distinct by hash of the case.";
+pub const RULE: &str = "generator: 1-3 client connections run concurrently, each attributed to an authorised caller/destination and carrying 1-4 requests on one keep-alive connection (sequentially, or all written before any response is read, or - with small bodies - the list repeated 8-39 times back to back: a keep-alive storm): method in {GET,POST,PUT,DELETE,PATCH,HEAD,OPTIONS}, target (12% of the requests are the two signature-exempt uploads PUT /vmAgentLog and POST /machine/?comp=telemetrydata in any letter case), header multiset (a third of the requests repeat a header name two or three times), body 0 bytes .. exactly the 100 KiB limit as Content-Length or chunked with generated chunk sizes and write boundaries; host responses: status from 200..599 (no 1xx), header multiset incl. repeated Set-Cookie and a host-side x-ms-azure-host-claims, body 0..400 KB binary as Content-Length / chunked with generated chunk sizes / close-delimited, written in generated pieces with optional pauses, the last bytes (e.g. the chunked terminator) optionally in a separate late write. Every request and response carries a unique tag. oracle: host side - method, target, de-framed body byte-equal, client header lines other than the three proxy-owned names equal as a multiset with order kept among equal names; client side - status, header lines plus exactly one x-ms-azure-host-authorization marker, body byte-equal, response tag = request tag; framing headers, Connection and Date exempt on both legs. non-trivial: an exchange with non-empty bodies in both directions and a multi-frame response, or >= 3 requests on one connection with >= 2 connections active; distinct by hash of the case.";
 
 const EXEMPT: &[&str] = &["content-length", "transfer-encoding", "connection", "keep-alive", "date", "te", "trailer", "upgrade"];
 const PROXY_OWNED: &[&str] = &["x-ms-azure-host-claims", "x-ms-azure-host-date", "x-ms-azure-host-authorization"];
